@@ -26,7 +26,7 @@ theorem line_spec (l : Str) : strip (L "// " ++ l) = Spec.commentLine l := by
   have h1 : lstrip (L "// " ++ l) = L "// " ++ l := by
     have : isSpace '/' = false := by decide
     show lstrip ('/' :: '/' :: ' ' :: l) = _
-    simp [lstrip, this]; rfl
+    simp [lstrip, this]
   unfold strip; rw [h1]
   unfold rstrip Spec.commentLine isBlank
   rw [List.reverse_append, lstrip_append]
